@@ -128,6 +128,9 @@ PLAN["C07"] = dict(quick=lambda seed: c07_jobs("quick"), thorough=lambda seed: c
                    stubs=RT_STUBS + ["Probe: WriteWithNames delegating to the real WriterWithPos, logging align/write_bytes events"], assumptions=[])
 
 
+C12_TOO_LARGE = ("VecDeepS", "BoxVecU8", "E5C", "GenC", "BothC", "ArrStringx2", "BoxString", "VecString", "VecVecU16", "VecZE", "VecZAl32", "VecU128")
+
+
 def c12_harnesses(tier):
     hs = []
     for row in U.ROWS:
@@ -138,6 +141,11 @@ def c12_harnesses(tier):
         # Option payload behind a parameter: the misplaced harness (symbolic base residue) exceeds the memory cap; BothBool,
         # BothU8, BothNzU8 and BothChar cover the same position bookkeeping
         if row["case"] in ("BothOptU8", "BothOptBool"):
+            continue
+        # with the buffer base a solver variable these exceed 24 GB (30 CBMC processes killed in the first full thorough run):
+        # nested / string-holding / 16- and 32-byte-unit cases.  Their blocks go through the same SliceWithPos::align as the
+        # cases that are run; listed under `outside`.
+        if row["case"] in C12_TOO_LARGE:
             continue
         for sh in (U.shapes(row, tier) if tier == "thorough" else U.shapes(row, tier)[:1]):
             hs.append(H("inst::" + U.inst_name("c12", row["case"], "x", sh),
@@ -151,7 +159,8 @@ PLAN["C12"] = dict(
     quick=lambda seed: [dict(harnesses=c12_harnesses("quick") + [twin("c12::c12_twin_reach")], timeout=900)],
     thorough=lambda seed: [dict(harnesses=c12_harnesses("thorough") + [twin("c12::c12_twin_reach")], timeout=3600)],
     bounds=dict(RT_BOUNDS, base_residue="all R in 0..128 (symbolic) of a 128-aligned buffer; stream offset 0"),
-    outside=COMMON_OUTSIDE, stubs=RT_STUBS + ["Probe (as C07)"], assumptions=["CBMC places objects at maximally aligned bases: misplacement is the explicit offset R"])
+    outside=COMMON_OUTSIDE + ["misplaced-buffer instances of " + ", ".join(C12_TOO_LARGE) + " and of Both<Option<_>,u32,()>: with the base residue symbolic CBMC exceeds the memory cap; their blocks pass through the same SliceWithPos::align as the instances that are run"],
+    stubs=RT_STUBS + ["Probe (as C07)"], assumptions=["CBMC places objects at maximally aligned bases: misplacement is the explicit offset R"])
 
 
 def names(mod, lst, **kw):
@@ -463,10 +472,16 @@ PLAN["C17"] = dict(
     stubs=["Tripwire: WriteNoStd whose write_all is an assert!(false)"], assumptions=[])
 
 C18_ALL = _fns("c18.rs", r"^\s+(c18_\w+) @")
+def _c18_jobs(hs, timeout):
+    # kani-driver keeps the CBMC output of every harness of one invocation in memory (47 GB for the 25 harnesses of the
+    # thorough tier, killed by the kernel): at most 4 harnesses per invocation, 4 CBMC processes in parallel
+    return [dict(harnesses=hs[i:i + 4], timeout=timeout, jobs=4, tag=str(i // 4)) for i in range(0, len(hs), 4)]
+
+
 PLAN["C18"] = dict(
-    quick=lambda seed: [dict(harnesses=names("c18", ["c18_zeros_p1", "c18_u32_p1", "c18_deeps_some", "c18_vecu128_p0", "c18_zal32_p8", "c18_hold_zst", "c18_esingle_p0", "c18_arr_u64x0_p1", "c18_toplevel_u32"], bound="concrete shape, field values symbolic, start residue per instance", what="bytes equal plain serialization; rows pre-order/in-stream/tiling/zero padding/aligned; debug() and to_csv() run", covers="none")
-                             + [twin("c18::c18_twin_reach")], timeout=900, jobs=5)],
-    thorough=lambda seed: [dict(harnesses=names("c18", C18_ALL + ["c18_toplevel_u32"], bound="concrete shape, field values symbolic", what="schema rows vs bytes", covers="none") + [twin("c18::c18_twin_reach")], timeout=2400, jobs=5)],
+    quick=lambda seed: _c18_jobs(names("c18", ["c18_zeros_p1", "c18_u32_p1", "c18_deeps_some", "c18_vecu128_p0", "c18_zal32_p8", "c18_hold_zst", "c18_esingle_p0", "c18_arr_u64x0_p1", "c18_toplevel_u32"], bound="concrete shape, field values symbolic, start residue per instance", what="bytes equal plain serialization; rows pre-order/in-stream/tiling/zero padding/aligned; debug() and to_csv() run", covers="none")
+                              + [twin("c18::c18_twin_reach")], 900),
+    thorough=lambda seed: _c18_jobs(names("c18", C18_ALL + ["c18_toplevel_u32"], bound="concrete shape, field values symbolic", what="schema rows vs bytes", covers="none") + [twin("c18::c18_twin_reach")], 2400),
     bounds={"shapes": "23 concrete shapes incl. 16- and 32-aligned blocks at gaps of 8/16/24/1 bytes, zero-sized fields, zero-sized types that still write bytes (single-variant enum, [u64;0] behind a gap), empty sequences, nested composites, header rows (top level u32)"},
     outside=["value-dependent shapes explored symbolically (CBMC runs out of memory)", "the rendered text (alloc::fmt::format is stubbed)", "shapes not listed"],
     stubs=["alloc::fmt::format -> String::new()", "Sink"], assumptions=[])
